@@ -23,15 +23,18 @@
    [null_guard] are now full, resp. guarded by [root_guard] (about the two
    document roots only).
 
-   What is NOT proved here (checked only by the correspondence run and the
-   judge, see docs/C06.md "missing"): the non-SAME <-> differ equivalence for
-   configurations that mix modes per path ([rules]) or configure identity
-   keys ([keys]); truthfulness outside positional comparison. *)
+   Arbitrary resolved configurations ([rules] choosing modes per list, [keys]
+   choosing identity keys per list / record) are covered by the `_cfg`
+   theorems at the end of this file (equivalence [equiv_c], guard [kguard_c] =
+   finding F4, Proofs/DiffIffCfg.v); what holds of an entry's path and values
+   in the synchronised modes is stated by the `_sync` theorems
+   (Proofs/DiffTruth.v); [data_eq] is an equivalence relation and the greedy
+   strike-out [bag_eqb] decides multiset equality (Proofs/DiffTrans.v). *)
 (* obligations tying the models' literal tables to the tables regenerated from the source *)
 From YP Require Import GenTables.
 From Coq Require Import List Ascii String ZArith NArith Bool Arith Permutation.
 From YP Require Import Outcome PyStr PyVal Doc Diff C06Spec DiffBase DiffPos DiffTotal DiffSync DiffEq
-  DiffKeys DiffCover DiffAcct DiffSym DiffKSync DiffIff DiffIffKey.
+  DiffKeys DiffCover DiffAcct DiffSym DiffKSync DiffIff DiffIffKey DiffIffCfg DiffTrans DiffTruth.
 Import ListNotations.
 Open Scope string_scope.
 
@@ -512,3 +515,198 @@ Theorem C06_entry_path_resolves_refuted :
   /\ pb_safe Dot L [RKey (PStr "*")] = false
   /\ C06_requery L "*" = Some [2; 4]%N.
 Proof. vm_compute. repeat split; reflexivity. Qed.
+
+(* ==================================================================== *)
+(* ARBITRARY resolved configurations: the [rules] table (modes per list) and
+   the [keys] table (identity keys per list / per record) are inputs of the
+   model and universally quantified here.  [equiv_c cfg] reads every pair of
+   sequences in the mode the configuration's own lookup selects at the
+   coordinates of the right-hand list (position / whole-element position /
+   value / identity key, the key in force per right-hand record) and is
+   otherwise data equality; [kguard_c cfg] is finding F4 and the ONLY guard:
+   at every pair of sequences read by identity key, each right-hand record
+   holds the list's key and its own key in force, and identities pair the
+   records one to one (identity values may be scalars, sequences or
+   mappings: they are compared as data); it is checked along the pairing the
+   comparison makes (value-synchronised lists along the greedy strike-out,
+   not over all pairs of equal elements). *)
+Theorem C06_nonsame_iff_differ_cfg_partial :
+  forall path_eq cfg L R es,
+    wf_doc L = true -> wf_doc R = true ->
+    kguard_c cfg L R None PNone = true ->
+    compare_to path_eq cfg L R = Ok es ->
+    shows_difference es = negb (equiv_c cfg L R None PNone).
+Proof. exact compare_to_iff_c. Qed.
+Print Assumptions C06_nonsame_iff_differ_cfg_partial.
+
+(* no guard at all when the configuration never selects --aoh key | deep *)
+Theorem C06_nonsame_iff_differ_cfg :
+  forall path_eq cfg L R es,
+    nokey_cfg cfg -> wf_doc L = true -> wf_doc R = true ->
+    compare_to path_eq cfg L R = Ok es ->
+    shows_difference es = negb (equiv_c cfg L R None PNone).
+Proof. exact nonsame_iff_differ_nokey. Qed.
+Print Assumptions C06_nonsame_iff_differ_cfg.
+
+Theorem C06_reflexive_cfg :
+  forall path_eq cfg L es,
+    nokey_cfg cfg -> wf_doc L = true ->
+    compare_to path_eq cfg L L = Ok es -> shows_difference es = false.
+Proof. exact reflexive_nokey. Qed.
+Print Assumptions C06_reflexive_cfg.
+
+Theorem C06_reflexive_cfg_partial :
+  forall path_eq cfg L es,
+    wf_doc L = true -> kguard_c cfg L L None PNone = true ->
+    compare_to path_eq cfg L L = Ok es -> shows_difference es = false.
+Proof. exact reflexive_c. Qed.
+Print Assumptions C06_reflexive_cfg_partial.
+
+Theorem C06_equal_no_difference_cfg_partial :
+  forall path_eq cfg L R es,
+    wf_doc L = true -> wf_doc R = true -> kguard_c cfg L R None PNone = true ->
+    data_eq L R = true ->
+    compare_to path_eq cfg L R = Ok es -> shows_difference es = false.
+Proof. exact equal_no_difference_c. Qed.
+Print Assumptions C06_equal_no_difference_cfg_partial.
+
+(* equal documents are equivalent under every configuration (under the guard) *)
+Theorem C06_equal_implies_equiv_cfg :
+  forall cfg a b par pref,
+    wf_doc a = true -> wf_doc b = true -> kguard_c cfg a b par pref = true ->
+    data_eq a b = true -> equiv_c cfg a b par pref = true.
+Proof. exact data_eq_equiv_c. Qed.
+Print Assumptions C06_equal_implies_equiv_cfg.
+
+(* the configured equivalence IS the uniform one when the configuration is uniform *)
+Theorem C06_equiv_cfg_uniform :
+  forall cfg am hm, uniform cfg am hm -> unkeyed hm = true ->
+    forall a b par pref, equiv_c cfg a b par pref = equiv am hm a b.
+Proof. exact equiv_c_uniform. Qed.
+Print Assumptions C06_equiv_cfg_uniform.
+
+Theorem C06_guard_cfg_nokey :
+  forall cfg, nokey_cfg cfg -> forall a b par pref, kguard_c cfg a b par pref = true.
+Proof. exact kguard_c_nokey. Qed.
+Print Assumptions C06_guard_cfg_nokey.
+
+(* F4 under a [keys] table: the configured identity key is missing *)
+Theorem C06_reflexive_cfg_refuted :
+  exists cfg d es, c_keys cfg <> [] /\ wf_doc d = true /\ kguard_c cfg d d None PNone = false /\
+    compare_to path_eq_real cfg d d = Ok es /\ shows_difference es = true.
+Proof. exact reflexive_cfg_refuted_witness. Qed.
+Print Assumptions C06_reflexive_cfg_refuted.
+
+(* non-vacuity: a NON-uniform configuration ([rules] /x = value): x reordered
+   shows no difference, y reordered does *)
+Example C06_cfg_rules_example :
+  let L := xy_doc 0 [1; 2; 3]%Z [1; 2; 3]%Z in
+  let R := xy_doc 100 [3; 1; 2]%Z [1; 2; 3]%Z in
+  let R' := xy_doc 100 [1; 2; 3]%Z [3; 1; 2]%Z in
+  (wf_doc L = true /\ wf_doc R = true /\ wf_doc R' = true) /\
+  (~ uniform (rules_cfg R) ArrPosition AohPosition /\ ~ uniform (rules_cfg R) ArrValue AohPosition) /\
+  kguard_c (rules_cfg R) L R None PNone = true /\
+  equiv_c (rules_cfg R) L R None PNone = true /\ data_eq L R = false /\
+  (exists es, compare_to path_eq_real (rules_cfg R) L R = Ok es /\ shows_difference es = false) /\
+  equiv_c (rules_cfg R') L R' None PNone = false /\
+  (exists es, compare_to path_eq_real (rules_cfg R') L R' = Ok es /\ shows_difference es = true).
+Proof. exact rules_example. Qed.
+
+(* non-vacuity: --aoh key with [keys] /r = name on records whose first key's
+   values coincide: the guard holds for the configured key, not for `id` *)
+Example C06_cfg_keys_example :
+  let L := recs_doc 0 [(1%Z, "a"); (1%Z, "bb")] in
+  let R := recs_doc 1000 [(1%Z, "bb"); (1%Z, "a")] in
+  wf_doc L = true /\ wf_doc R = true /\ c_keys (keys_cfg "name" R) <> [] /\
+  kguard_c (keys_cfg "name" R) L R None PNone = true /\
+  equiv_c (keys_cfg "name" R) L R None PNone = true /\ data_eq L R = false /\
+  (exists es, compare_to path_eq_real (keys_cfg "name" R) L R = Ok es /\ shows_difference es = false) /\
+  kguard_c (keys_cfg "id" R) L R None PNone = false.
+Proof. exact keys_example. Qed.
+
+(* ==================================================================== *)
+(* data equality is an equivalence relation on real documents (reflexive:
+   no hypothesis; symmetric, transitive: well-formed documents), so the greedy
+   strike-out [bag_eqb data_eq] used by the value-mode equivalence decides
+   equality of two lists as multisets of data: it succeeds exactly when the
+   right list can be reordered into a list equal to the left one element by
+   element - and "equal as bags" is itself reflexive, symmetric, transitive. *)
+Theorem C06_data_eq_equivalence :
+  (forall a, data_eq a a = true) /\
+  (forall a b, wf_doc a = true -> wf_doc b = true -> data_eq a b = true -> data_eq b a = true) /\
+  (forall a b c, wf_doc a = true -> wf_doc b = true -> wf_doc c = true ->
+     data_eq a b = true -> data_eq b c = true -> data_eq a c = true).
+Proof. exact (conj data_eq_refl (conj data_eq_sym data_eq_trans)). Qed.
+Print Assumptions C06_data_eq_equivalence.
+
+Theorem C06_bag_decides_multiset_equality :
+  forall l l', all_wf l -> all_wf l' ->
+    (bag_eqb data_eq l l' = true <->
+     exists l'', Permutation l'' l' /\ forall2b data_eq l l'' = true).
+Proof. exact bag_eqb_iff. Qed.
+Print Assumptions C06_bag_decides_multiset_equality.
+
+Theorem C06_bag_equivalence :
+  (forall l, bag_eqb data_eq l l = true) /\
+  (forall l l', all_wf l -> all_wf l' -> bag_eqb data_eq l l' = true -> bag_eqb data_eq l' l = true) /\
+  (forall l1 l2 l3, all_wf l1 -> all_wf l2 -> all_wf l3 ->
+     bag_eqb data_eq l1 l2 = true -> bag_eqb data_eq l2 l3 = true -> bag_eqb data_eq l1 l3 = true).
+Proof. exact (conj bag_eqb_refl (conj bag_eqb_sym bag_eqb_trans)). Qed.
+Print Assumptions C06_bag_equivalence.
+
+Example C06_bag_example :
+  all_wf [lf 1 (PInt 1); lf 2 (PInt 2); lf 3 (PFloat (QArith_base.Qmake 3 1) "3.0")] /\
+  bag_eqb data_eq [lf 1 (PInt 1); lf 2 (PInt 2); lf 3 (PFloat (QArith_base.Qmake 3 1) "3.0")]
+                  [lf 4 (PInt 3); lf 5 (PBool true); lf 6 (PInt 2)] = true.
+Proof. split; [intros x [<-|[<-|[<-|[]]]]; reflexivity | vm_compute; reflexivity]. Qed.
+
+(* ==================================================================== *)
+(* What an entry says about the two documents in EVERY mode and under every
+   configuration.  [C06_truthful] (positional) says both values sit at the
+   entry's location.  In the synchronised modes the two values of an entry
+   sit at different indices of a reordered list; [sgood L R e] says: there
+   are a left location lL and a right location lR such that
+     - the right value (SAME / CHANGE / ADD) is what R holds at lR;
+     - the left value (SAME / CHANGE / DELETE) is what L holds at lL - or,
+       for a CHANGE that _diff_synced_lists made by popping a DELETE with an
+       equal path, what L holds at that DELETE's location;
+     - the entry's location agrees position by position with lL or with lR
+       ([mix]: keys, set members and positional indices are the same in all
+       three; in a value-synchronised list the entries of a matched pair, and
+       in key mode the SAME / CHANGE of a matched pair, take the LEFT index;
+       in deep mode the entries beneath a matched pair take the RIGHT index;
+       an unmatched left element is deleted at its left index, an unmatched
+       right element added at its right index);
+     - SAME values are equal under Differ._same_data.
+   Witnesses: under --aoh deep a DELETE can carry the right index of the
+   matched record, so [truthful] as stated for positional comparison fails
+   there (C06_truthful_deep_refuted); under --arrays value the ADD carries
+   the right index and the SAME the left (C06_truthful_value_example). *)
+Theorem C06_truthful_sync :
+  forall path_eq cfg L R es,
+    wf_doc L = true -> wf_doc R = true ->
+    compare_to path_eq cfg L R = Ok es -> Forall (sgood L R) es.
+Proof. exact sync_truthful. Qed.
+Print Assumptions C06_truthful_sync.
+
+Theorem C06_truthful_is_sync_special_case :
+  forall L R e, truthful L R e ->
+    (e_action e = ASame -> val_eq (e_lhs e) (e_rhs e) = true) -> sgood L R e.
+Proof. exact truthful_sgood. Qed.
+Print Assumptions C06_truthful_is_sync_special_case.
+
+Theorem C06_truthful_deep_refuted :
+  wf_doc deep_L = true /\ wf_doc deep_R = true /\ kguard_c deep_cfg deep_L deep_R None PNone = true /\
+  exists es, compare_to path_eq_real deep_cfg deep_L deep_R = Ok es /\
+    exists e, nth_error es 3 = Some e /\ e_action e = ADelete /\ e_path e = "[0].b" /\
+      e_loc e = [RIdx 0; RKey (PStr "b")] /\
+      lookup deep_L (e_loc e) = None /\
+      lookup deep_L [RIdx 1; RKey (PStr "b")] = Some (e_lhs e).
+Proof. exact truthful_deep_witness. Qed.
+Print Assumptions C06_truthful_deep_refuted.
+
+Example C06_truthful_value_example :
+  exists es, compare_to path_eq_real value_cfg (ints 0 [1; 2]%Z) (ints 100 [2; 3]%Z) = Ok es /\
+    map (fun e => (e_action e, e_loc e, leaf_value (e_lhs e), leaf_value (e_rhs e))) es =
+      [(ADelete, [RIdx 0], PInt 1, PNone); (ASame, [RIdx 1], PInt 2, PInt 2); (AAdd, [RIdx 1], PNone, PInt 3)].
+Proof. exact truthful_value_witness. Qed.
